@@ -93,9 +93,15 @@ def mk_lin(d: Dict[Term, Any], k: Any) -> Term:
     return ("lin", items, k)
 
 
+def _is_listlike(t: Term) -> bool:
+    return isinstance(t, tuple) and bool(t) and t[0] in ("list", "tolist", "tuple", "listcat") or (isinstance(t, tuple) and len(t) == 5 and t[0] == "comp" and t[1] == "list")
+
+
 def add(a: Term, b: Term) -> Term:
     if _is_strlike(a) or _is_strlike(b):
         return ("strcat", a, b)
+    if _is_listlike(a) and _is_listlike(b):
+        return ("listcat", a, b)          # list concatenation keeps its order (not a commutative sum)
     da, ka = as_lin(a)
     db, kb = as_lin(b)
     for t, c in db.items():
